@@ -107,3 +107,37 @@ func vc_interval_contains_requires(iv interval, other interval) bool { return tr
 func vc_interval_contains_ensures_def(iv interval, other interval, res bool) bool {
 	return res == (iv.start <= other.start && other.end <= iv.end)
 }
+
+// ---- MySQL 5.6 GTID sets: per server id a list of closed intervals ----
+
+// canonical form of one interval list: every interval non-empty, the list sorted and the intervals disjoint
+func specIntervalsCanonical(ivs []interval) bool {
+	return vspec.Forall(0, len(ivs), func(k int) bool {
+		return ivs[k].start <= ivs[k].end &&
+			vspec.Forall(0, k, func(j int) bool { return ivs[j].end < ivs[k].start })
+	})
+}
+
+func vc_Mysql56GTIDSet_ContainsGTID_requires(set Mysql56GTIDSet, gtid GTID) bool {
+	g, ok := gtid.(Mysql56GTID)
+	return ok && specIntervalsCanonical(set[g.Server])
+}
+
+// every interval seen so far ends below the sequence number
+func vc_Mysql56GTIDSet_ContainsGTID_loop1_inv(rangeindex int, set Mysql56GTIDSet, gtid56 Mysql56GTID) bool {
+	ivs := set[gtid56.Server]
+	return rangeindex >= -1 && rangeindex < len(ivs) &&
+		vspec.Forall(0, rangeindex+1, func(k int) bool { return ivs[k].end < gtid56.Sequence })
+}
+
+// membership as in the mathematical model: true exactly if some interval of that server id covers the number
+func vc_Mysql56GTIDSet_ContainsGTID_ensures_member(set Mysql56GTIDSet, gtid GTID, res bool, rangeindex int, gtid56 Mysql56GTID) bool {
+	ivs := set[gtid56.Server]
+	if res {
+		i := rangeindex
+		return i >= 0 && i < len(ivs) && ivs[i].start <= gtid56.Sequence && gtid56.Sequence <= ivs[i].end
+	}
+	return vspec.Forall(0, len(ivs), func(k int) bool {
+		return !(ivs[k].start <= gtid56.Sequence && gtid56.Sequence <= ivs[k].end)
+	})
+}
